@@ -104,6 +104,23 @@ def check_parser(P, R):
              'partition() never fails: a range spec without any "-" (`bytes=5`) is taken for the open range `5-` and answered 206 instead of 416',
              why='a junk Range header must give 416', key_extra='partition-sep')
         unp = [ast.Assign(targets=[ast.Tuple(elts=[st3.targets[0].elts[0], st3.targets[0].elts[2]], ctx=ast.Store())], value=st3.value)]
+    if not unp:
+        # bounds = spec.split('-'); if len(bounds) != 2: return; start, end = bounds
+        for st in walk_shallow(f.node):
+            if isinstance(st, ast.Assign) and isinstance(st.targets[0], ast.Tuple) and len(st.targets[0].elts) == 2 and isinstance(st.value, ast.Name):
+                sn_ = g.node_of_stmt(st)[0]
+                defs_ = rd.at(sn_, st.value.id)
+                if defs_ and all(isinstance(d.value, ast.Call) and call_attr(d.value) == 'split' and d.value.args and is_const(d.value.args[0], '-') for d in defs_):
+                    lens_ok = False
+                    for tn in g.nodes:
+                        cp_ = compare_parts(tn.ast) if tn.kind == 'test' and tn.ast is not None else None
+                        if cp_ and src(cp_[0]) == f'len({st.value.id})' and is_const(cp_[2], 2) and cp_[1] in (ast.Eq, ast.NotEq):
+                            if g.edge_dominates(tn, 'true' if cp_[1] is ast.Eq else 'false', sn_):
+                                lens_ok = True
+                    R.ob('C17.b', f, st, lens_ok, text=f'{short(st)} only when the split gave exactly two pieces', detail='' if lens_ok else
+                         'the two-name unpacking of the split is not preceded by a length test: a spec with no or several "-" raises ValueError (500 instead of 416)',
+                         why='a junk Range header must give 416, not a 500', key_extra='unpack-len')
+                    unp = [st]
     R.require(unp, 'get_first_range: `start, end = <range>.split("-")` not found')
     sname, ename = [e.id for e in unp[0].targets[0].elts]
     for st in walk_shallow(f.node):
@@ -153,6 +170,9 @@ def check_stream(P, R):
     loop = loops[0]
     counter = T.counter_of_while(loop)
     okc = counter == count
+    cu = T.countup_of_while(loop) if counter is None else None
+    if cu is not None:
+        return check_stream_countup(P, R, f, loop, cu)
     if counter is None and not T.weak_loop_bound(loop):
         R.undecided('C17.c', f, loop.test, f'while {src(loop.test)}', f'the bound of the streaming loop is not in a form with a recogniser (expected `{count} > 0`)')
         return
@@ -203,6 +223,68 @@ def check_stream(P, R):
     R.ob('C17.c', f, seeks[0] if seeks else f.node, ok, text=f'{fp}.seek({offset}) before reading', detail='' if ok else
          'the file is not positioned at the range offset before reading')
     # the yielded value is the part read
+    for y in T.yield_nodes(g):
+        yv = [x for x in walk_shallow(y.ast) if isinstance(x, ast.Yield)][0].value
+        ok = isinstance(yv, ast.Name) and yv.id == var
+        R.ob('C17.c', f, y.ast, ok, detail='' if ok else 'the iterator yields something other than the part read')
+
+
+def check_stream_countup(P, R, f, loop, cu):
+    """the same clauses for `sent = 0; while sent < bytes_len and part: ...; sent += len(part); part = read(min(bytes_len - sent, maxread))`"""
+    g, rd = f.cfg, f.rd
+    fp, offset, count = f.params[0], f.params[1], f.params[2]
+    maxread = f.params[3] if len(f.params) > 3 else None
+    limit, recv = cu
+    hn = T.loop_head(g, loop)
+    rdefs = [d for d in rd.at(hn, recv) if d.kind != 'aug']
+    okc = limit == count and all(d.kind == 'param' for d in rd.at(hn, limit)) and bool(rdefs) and all(d.kind == 'assign' and is_const(d.value, 0) for d in rdefs)
+    R.ob('C17.c', f, loop.test, okc, text=f'while {src(loop.test)} [{recv} starts at 0]', detail='' if okc else
+         f'the loop is not conditioned on `{recv} < {count}` with {recv} starting at 0', why='without the bound the iterator streams past the requested slice')
+    reads = [c for c in walk_shallow(f.node) if isinstance(c, ast.Call) and call_attr(c) == 'read' and isinstance(c.func.value, ast.Name) and c.func.value.id == fp]
+    R.require(len(reads) >= 1, f'{f.fq}: no read')
+
+    def is_remaining(e, at):
+        e = T.expand(f, e, at, keep=(limit, recv))
+        if isinstance(e, ast.Name) and e.id == limit:
+            # before anything was delivered the remainder is the whole slice
+            return all(d.kind == 'assign' and is_const(d.value, 0) for d in rd.at(at, recv)) if rd.at(at, recv) else True
+        return isinstance(e, ast.BinOp) and isinstance(e.op, ast.Sub) and isinstance(e.left, ast.Name) and e.left.id == limit \
+            and isinstance(e.right, ast.Name) and e.right.id == recv
+    for i, c in enumerate(reads):
+        cn = g.node_of_stmt(c)[0]
+        arg = c.args[0] if c.args else None
+        ok, det = False, 'read() without a size'
+        if arg is not None:
+            ax = T.expand(f, arg, cn, keep=(limit, recv))
+            det = f'requested size is not min({count} - {recv}, {maxread}) computed for this read'
+            if isinstance(ax, ast.Call) and dotted(ax.func) == 'min':
+                has_rem = any(is_remaining(a_, cn) for a_ in ax.args)
+                has_buf = maxread is None or any(maxread in names_loaded(a_) for a_ in ax.args)
+                # freshness: the arguments are evaluated with the current value of the received counter (no definition of it between)
+                ok = has_rem and has_buf
+                if ok and isinstance(arg, ast.Name):
+                    ds = rd.at(cn, arg.id)
+                    ok = all(rd.same_defs(d.node, cn, recv) for d in ds)
+                    if not ok:
+                        det = f'min({count} - {recv}, ...) is computed before the last update of {recv}: the last read over-reads'
+                if ok:
+                    det = ''
+        R.ob('C17.c', f, c, ok, detail=det, why='delivered bytes would exceed Content-Length / Content-Range; no chunk larger than the buffer', key_extra=f'read#{i}')
+    var = None
+    for c in reads:
+        var = T.assigned_name_of_call(c) or var
+    incs = T.increments_of(loop, recv)
+    R.ob('C17.c', f, loop, bool(incs), text='counter raised in loop', detail='' if incs else 'delivered length never counted')
+    for (st, amount) in incs:
+        ok = amount is not None and var is not None and T.is_len_of(amount, var)
+        R.ob('C17.c', f, st, ok, detail='' if ok else f'counter must be raised by len({var})')
+    cond_names = names_loaded(loop.test)
+    ok = var in cond_names or bool(T.falsy_tests(g, var, within=loop.body))
+    R.ob('C17.c', f, loop.test, ok, text='empty read ends the loop', detail='' if ok else 'an empty read does not end the loop')
+    seeks = [c for c in walk_shallow(f.node) if isinstance(c, ast.Call) and call_attr(c) == 'seek' and c.args and isinstance(c.args[0], ast.Name) and c.args[0].id == offset]
+    ok = bool(seeks) and all(g.must_pass(g.entry, g.node_of_stmt(r)[0], [g.node_of_stmt(s)[0] for s in seeks]) for r in reads)
+    R.ob('C17.c', f, seeks[0] if seeks else f.node, ok, text=f'{fp}.seek({offset}) before reading', detail='' if ok else
+         'the file is not positioned at the range offset before reading')
     for y in T.yield_nodes(g):
         yv = [x for x in walk_shallow(y.ast) if isinstance(x, ast.Yield)][0].value
         ok = isinstance(yv, ast.Name) and yv.id == var
@@ -381,7 +463,8 @@ def check_static_file(P, R):
                     if not value_is_none_or_parsed(d.value):
                         vals_ok = False
                         why = f'`{ims.id}` may still hold `{short(d.value) if d.value is not None else d.kind}` (a str such as the empty header value) at the comparison'
-                guard_ok = any(isinstance(p.left, ast.Name) and p.left.id == ims.id for p in nn)
+                guard_ok = any(isinstance(p.left, ast.Name) and p.left.id == ims.id for p in nn) or \
+                    (isinstance(ims, ast.Name) and T.holds_not_none(T.guard_atoms(f, tn), ims.id))      # the None test may be an enclosing `if`
                 okf = vals_ok and guard_ok
                 R.ob('C17.f', f, c0, okf, detail='' if okf else (why or 'the comparison is not guarded by `is not None`'),
                      why='an empty / unparsable If-Modified-Since would raise TypeError -> 500')
